@@ -1,5 +1,6 @@
 (* C01 -- compiled grammars recognise exactly what PEG semantics prescribes (statements only). *)
-From Lug Require Import Proofs.BlockDefs Proofs.Blocks Proofs.LinkStmt Proofs.LinkProofs.
+From Lug Require Import Proofs.BlockDefs Proofs.Blocks Proofs.LinkStmt Proofs.LinkProofs Proofs.TopStmt Proofs.TopProofs
+  Spec.PegEval Proofs.PegEvalProofs.
 
 (* the machine running the code of an expression simulates its PEG derivation (all expressions of the
    fragment, all inputs, all surrounding machine states) *)
@@ -8,3 +9,27 @@ Print Assumptions C01_block.
 (* start() lays every reachable rule out at its address and resolves calls to those addresses *)
 Theorem C01_link_layout : stmt_link_layout. Proof. exact link_layout_proof. Qed.
 Print Assumptions C01_link_layout.
+(* end to end: the semantics accepts a prefix => parse() terminates, returns true, has consumed exactly it *)
+Theorem C01_sound : stmt_top_success. Proof. exact top_success_proof. Qed.
+Print Assumptions C01_sound.
+(* the semantics rejects => parse() terminates and returns false *)
+Theorem C01_reject : stmt_top_failure. Proof. exact top_failure_proof. Qed.
+Print Assumptions C01_reject.
+(* the semantics is a function, so "exactly when" *)
+Theorem C01_deterministic : stmt_peg_deterministic. Proof. exact peg_deterministic_proof. Qed.
+Print Assumptions C01_deterministic.
+Theorem C01_choice_commits : stmt_choice_commits. Proof. exact choice_commits_proof. Qed.
+Print Assumptions C01_choice_commits.
+Theorem C01_star_never_fails : stmt_star_never_fails. Proof. exact star_never_fails_proof. Qed.
+Print Assumptions C01_star_never_fails.
+Theorem C01_star_greedy : stmt_star_greedy. Proof. exact star_greedy_proof. Qed.
+Print Assumptions C01_star_greedy.
+Theorem C01_predicates_consume_nothing : stmt_predicates_consume_nothing. Proof. exact predicates_consume_nothing_proof. Qed.
+Print Assumptions C01_predicates_consume_nothing.
+Theorem C01_never_gives_input_back : stmt_peg_monotone. Proof. exact peg_monotone_proof. Qed.
+Print Assumptions C01_never_gives_input_back.
+(* the executable oracle used by the conformance search is the relation *)
+Theorem C01_oracle_sound : stmt_peg_eval_sound. Proof. exact peg_eval_sound_proof. Qed.
+Print Assumptions C01_oracle_sound.
+Theorem C01_oracle_complete : stmt_peg_eval_complete. Proof. exact peg_eval_complete_proof. Qed.
+Print Assumptions C01_oracle_complete.
